@@ -296,8 +296,24 @@ type StartOpts struct {
 	ExtraEnv []string
 }
 
-// Start launches the gateway. With NoWait it returns right after exec.
+// Start launches the gateway. With NoWait it returns right after exec. A lost
+// race for the listening port (another process took it between probing and
+// binding) is retried with a new port.
 func Start(cfg *Config, o StartOpts) (*Proc, error) {
+	var p *Proc
+	var err error
+	for try := 0; try < 5; try++ {
+		p, err = start1(cfg, o)
+		if err != nil && p != nil && strings.Contains(p.Stderr(), "address already in use") && !o.NoWait {
+			p.Stop()
+			continue
+		}
+		return p, err
+	}
+	return p, err
+}
+
+func start1(cfg *Config, o StartOpts) (*Proc, error) {
 	dir, err := os.MkdirTemp(o.WorkDir, "gw-")
 	if err != nil {
 		return nil, err
